@@ -82,7 +82,10 @@ const L2Rule = "; L2 family (complete client against wire-level peers, one proce
 	"GetCFilter (single, forward batch, reverse batch; MaxBatchSize 8-48; NumRetries 2-3) calls on distinct blocks, then a probe burst and Stop " +
 	"(in a quarter of the scenarios Stop is called while the last round is in flight). L2 fingerprint = (fixed/seeded, roles that fired x request " +
 	"kind they fired on, call kinds, outcome kinds, stop point); non-trivial = at least one actor fired (a local disconnect happened while its " +
-	"peer was answering) and the scenario was judged"
+	"peer was answering) and the scenario was judged. L2 ORACLE: every call returns exactly once (a call or Stop still pending after its watchdog is " +
+	"judged by two goroutine dumps, see assumptions); a success carries the block / filter of the generated chain; a shutdown error is only " +
+	"returned once the harness began stopping the client; errors of the other kinds (retry limit reached with the last peer's disconnect, " +
+	"timeout, not retrieved) are counted, not judged; calls issued after earlier ones ended (probe burst) and Stop return"
 
 // L2Count returns the number of L2 scenarios of the tier.
 func L2Count(r *evid.Run) int { return r.Pick(16, 200) }
@@ -383,10 +386,11 @@ type l2CallRun struct {
 	Err     string `json:"err,omitempty"`
 	Peers   int    `json:"peers_asked"`
 
-	hash chainhash.Hash
-	gid  atomic.Int64
-	done chan struct{}
-	bad  string
+	hash     chainhash.Hash
+	gid      atomic.Int64
+	done     chan struct{}
+	bad      string
+	stopSeen bool // the harness had begun stopping the client when the call returned
 }
 
 type l2Exec struct {
@@ -751,6 +755,7 @@ func (x *l2Exec) call(c *l2CallRun) {
 			}
 		}
 	}
+	c.stopSeen = x.stopping.Load()
 	if err != nil {
 		c.Err = err.Error()
 		c.Outcome = "error"
@@ -1228,8 +1233,12 @@ func (x *l2Exec) summarize(res *l2.Result, stopOK, stuck bool, incon []string) {
 		o := c.Outcome
 		if o == "error" {
 			o = "error:" + l2ErrKind(c.Err)
-			if x.stopping.Load() && pl.StopMid && c.Round == len(pl.Rounds) {
+			if c.stopSeen {
 				o += "@stop"
+			} else if l2ErrKind(c.Err) == "shutdown" {
+				res.Violate(evid.Sig("c12-l2", "shutdown-verdict-without-stop", strings.SplitN(c.Kind, "-", 2)[0]),
+					fmt.Sprintf("%s call for height %d failed with %q although the client was not being stopped", c.Kind, c.Height, c.Err),
+					map[string]any{"plan": pl, "call": c, "fires": fires, "trace": x.traceCopy()})
 			}
 		}
 		outcomes[o] = true
